@@ -69,7 +69,31 @@ func GenShapeZoo(idx int) *ir.Request {
 		{Name: "kept", Number: 4, Kind: "message", TypeName: P + "LeafZ", Ann: ir.Ann{EmptyBehavior: "PRESERVE"}},
 		{Name: "label", Number: 5, Kind: "string"},
 	}}
-	f.Messages = []*ir.Message{leaf, stamps, textV, imageV, gone, emptyZ, mkEvent("OneofFlatZ", true), mkEvent("OneofNestedZ", false), find, del}
+	// a flattened child whose fields are `optional`, nullable, and both (the declaration must
+	// follow the nullable marker first: such a field is sent as an explicit null)
+	tr := true
+	nick := &ir.Message{Name: "NickLeafZ", Fields: []*ir.Field{
+		{Name: "nick", Number: 1, Kind: "string", Card: "optional", Ann: ir.Ann{Nullable: &tr}},
+		{Name: "city", Number: 2, Kind: "string"},
+		{Name: "floor", Number: 3, Kind: "int32", Card: "optional"},
+	}}
+	flatNull := &ir.Message{Name: "FlatNullZ", Fields: []*ir.Field{
+		{Name: "id", Number: 1, Kind: "string"},
+		{Name: "home", Number: 2, Kind: "message", TypeName: P + "NickLeafZ", Ann: ir.Ann{Flatten: &tr}},
+		{Name: "work", Number: 3, Kind: "message", TypeName: P + "NickLeafZ", Ann: ir.Ann{Flatten: &tr, FlattenPrefix: sp("work_")}},
+	}}
+	// explicit json_name on path-bound, query-bound and body fields: every generator must take the
+	// property name from the descriptor's JSON name, not re-derive it from the proto name
+	alias := &ir.Message{Name: "AliasGet", Fields: []*ir.Field{
+		{Name: "user_id", Number: 1, Kind: "string", JSONName: "uid"},
+		{Name: "page_size", Number: 2, Kind: "int32", JSONName: "ps", Ann: ir.Ann{Query: &ir.Query{Name: "page_size"}}},
+	}}
+	aliasPut := &ir.Message{Name: "AliasPut", Fields: []*ir.Field{
+		{Name: "user_id", Number: 1, Kind: "string", JSONName: "uid"},
+		{Name: "display_name", Number: 2, Kind: "string", JSONName: "label"},
+		{Name: "big_total", Number: 3, Kind: "int64", JSONName: "total"},
+	}}
+	f.Messages = []*ir.Message{leaf, stamps, textV, imageV, gone, emptyZ, mkEvent("OneofFlatZ", true), mkEvent("OneofNestedZ", false), find, del, nick, flatNull, alias, aliasPut}
 	f.Services = []*ir.Service{{Name: "Zoo", BasePath: "/zoo", Methods: []*ir.Method{
 		{Name: "PutStamps", Input: P + "PlainStamps", Output: P + "PlainStamps", Config: &ir.HTTPConfig{Path: "/stamps", Method: "POST"}},
 		{Name: "PutFlat", Input: P + "OneofFlatZ", Output: P + "OneofFlatZ", Config: &ir.HTTPConfig{Path: "/flat", Method: "POST"}},
@@ -77,6 +101,9 @@ func GenShapeZoo(idx int) *ir.Request {
 		{Name: "PutEmpty", Input: P + "EmptyStampZ", Output: P + "EmptyStampZ", Config: &ir.HTTPConfig{Path: "/empty", Method: "POST"}},
 		{Name: "Find", Input: P + "Int64Find", Output: P + "LeafZ", Config: &ir.HTTPConfig{Path: "/find", Method: "GET"}},
 		{Name: "Drop", Input: P + "Int64Drop", Output: P + "LeafZ", Config: &ir.HTTPConfig{Path: "/drop", Method: "DELETE"}},
+		{Name: "PutFlatNull", Input: P + "FlatNullZ", Output: P + "FlatNullZ", Config: &ir.HTTPConfig{Path: "/flatnull", Method: "POST"}},
+		{Name: "GetAlias", Input: P + "AliasGet", Output: P + "AliasPut", Config: &ir.HTTPConfig{Path: "/alias/{user_id}", Method: "GET"}},
+		{Name: "PutAlias", Input: P + "AliasPut", Output: P + "AliasPut", Config: &ir.HTTPConfig{Path: "/alias/{user_id}", Method: "PUT"}},
 	}}}
 	return &ir.Request{Files: []*ir.File{f}, Generate: []string{f.Name}}
 }
